@@ -5,6 +5,7 @@ from glue.core.data import Data
 from glue.core.contracts import contract
 
 from glue.core.component import Component, ExtendedComponent
+from glue.core.component_link import ComponentLink
 
 
 __all__ = ['RegionData']
@@ -159,7 +160,7 @@ class RegionData(Data):
            `ValueError`, if the :class:`~glue.core.data_region.RegionData` already has an extended component
         """
 
-        if not isinstance(component, Component):
+        if not isinstance(component, (Component, ComponentLink)):
             if all(isinstance(s, shapely.Geometry) for s in component):
                 center_x = []
                 center_y = []
